@@ -108,6 +108,7 @@ pub fn eval(data: &[u8], obs: &mut Obs) -> Vec<Violation> {
                 av1_seq: if vcodec == 2 { Some(chunk(&mut d)) } else { None },
                 vp9: if vcodec == 3 { Some([byte(&mut d) as u32; 9]) } else { None },
                 lang: if byte(&mut d) & 1 == 1 { Some(String::from_utf8_lossy(&chunk(&mut d)).to_string()) } else { None },
+                path: 0,
             };
             let mut ops = vec![FOp::Init];
             while !d.is_empty() && ops.len() < 24 {
